@@ -58,6 +58,12 @@ def forms(fl):
         ('floating-str', {'floating_species': fl}, [1, 3, 4]),
         ('floating-[list]', {'floating_species': [fl]}, [1, 3, 4]),
         ('floating-[list,P]', {'floating_species': [fl, 'P']}, [1, 3]),
+        ('floating-{set}', {'floating_species': {fl}}, [1, 3, 4]),
+        ('floating-frozenset', {'floating_species': frozenset([fl, 'P'])}, [1, 3]),
+        ('floating-(tuple)', {'floating_species': (fl,)}, [1, 3, 4]),
+        ('fixed-{set}', {'fixed_species': {'S', 'P'}}, [1, 3, 4]),
+        ('fixed-[repeated names]', {'fixed_species': ['S', 'P', 'S']}, [1, 3, 4]),
+        ('fixed-(tuple)', {'fixed_species': ('S',)}, [1, 3]),
     ]
 
 
